@@ -349,7 +349,9 @@ _ALWAYS = {
              "set-displayname on all three), child process killed with os._exit, state inspected by a fresh process: collection lists, "
              "interrupted resource old or new and hashing to its etag, other resources intact, no reference to a missing object", {})],
     "C06": [("uid uniqueness (store)", STORE_EXPLORE, _STORE_BOUND, {})],
-    "C07": [("change lists (store)", STORE_EXPLORE, _STORE_BOUND, {"backends": ["tree-git", "bare-git"]})],
+    "C07": [("change lists (store)", STORE_EXPLORE, _STORE_BOUND, {"backends": ["tree-git", "bare-git"]}),
+            ("sync-collection over HTTP", HTTP, _HTTP_ALL + "; after every step a sync-collection REPORT from the empty token and from the last "
+             "three issued tokens must list exactly the members whose etag differs (404 for removed ones), and an unknown token is refused", {})],
     "C08": [("ctag (store)", STORE_EXPLORE, _STORE_BOUND, {"backends": ["tree-git", "bare-git"]}), ("tags over HTTP", HTTP, _HTTP_ALL, {})],
     "C09": [("git history (store)", STORE_EXPLORE, _STORE_BOUND, {"backends": ["tree-git", "bare-git"]})],
     "C13": [("confinement (HTTP)", HTTP, _HTTP_ALL, {})],
